@@ -2,9 +2,9 @@
 C11 — the ray-crossing counter over a whole ring equals the even-odd rule, in exact arithmetic.
 
 For every linearly ordered field, every closed ring (first vertex = last vertex) and every point:
-given that the determinant-sign routine returns the exact sign (hypothesis `hdet`; its
-permutation stage and reduction steps are proved sign-preserving in Properties/C11.lean, its
-Euclidean loop is decided per explored input), `LocatePointInRing` returns
+given that the determinant-sign routine returns the exact sign on the calls the ring causes
+(hypothesis `DetOK` per edge — discharged in Properties/C11Det.lean, where the whole routine
+including its Euclidean loop is proved exact), `LocatePointInRing` returns
   boundary  iff the point lies on some edge (collinear and between the end points),
   interior  iff it lies on no edge and an odd number of edges cross the ray to its right,
   exterior  otherwise
@@ -43,8 +43,9 @@ def crossesRayK (p a b : K × K) : Prop :=
 /-- What countSegment does, stated with the field's order (segment from `b` to `a`: the code
 passes `p1 = b`, `p2 = a` for consecutive ring vertices `a`, `b`). -/
 theorem countSegment_eq (F : DetOps K) (hF : Lawful F) (fuel : Nat)
-    (hdet : ∀ x1 y1 x2 y2, signOfDet2x2 F fuel x1 y1 x2 y2 = sgnInt (x1 * y2 - x2 * y1))
-    (px py : K) (c : Counter) (bx by_ ax ay : K) :
+    (px py : K) (c : Counter) (bx by_ ax ay : K)
+    (hdet : signOfDet2x2 F fuel (bx - px) (by_ - py) (ax - px) (ay - py)
+      = sgnInt ((bx - px) * (ay - py) - (ax - px) * (by_ - py))) :
     countSegment F fuel px py c bx by_ ax ay =
       if bx < px ∧ ax < px then c
       else if px = ax ∧ py = ay then { c with onSegment := true }
@@ -138,28 +139,34 @@ theorem det_eq_neg_cross (ax ay bx by_ px py : K) :
   ring
 
 variable (F : DetOps K) (hF : Lawful F) (fuel : Nat)
-  (hdet : ∀ x1 y1 x2 y2, signOfDet2x2 F fuel x1 y1 x2 y2 = sgnInt (x1 * y2 - x2 * y1))
+
+/-- The determinant-sign routine is exact on the one call countSegment makes for the edge `a → b`
+(entries: the edge's end points relative to the test point). -/
+def DetOK (px py : K) (a b : K × K) : Prop :=
+  signOfDet2x2 F fuel (b.1 - px) (b.2 - py) (a.1 - px) (a.2 - py)
+    = sgnInt ((b.1 - px) * (a.2 - py) - (a.1 - px) * (b.2 - py))
 
 /-- Boundary flag and crossing increment of one edge, started from the empty counter. -/
 def detE (px py : K) (a b : K × K) : Bool := (countSegment F fuel px py {} b.1 b.2 a.1 a.2).onSegment
 def incE (px py : K) (a b : K × K) : Nat := (countSegment F fuel px py {} b.1 b.2 a.1 a.2).crossings
 
-include hF hdet in
+include hF in
 /-- countSegment adds the edge's increment and ors the edge's boundary flag. -/
-theorem countSegment_additive (px py : K) (c : Counter) (a b : K × K) :
+theorem countSegment_additive (px py : K) (c : Counter) (a b : K × K) (hdet : DetOK F fuel px py a b) :
     countSegment F fuel px py c b.1 b.2 a.1 a.2 =
       { crossings := c.crossings + incE F fuel px py a b, onSegment := c.onSegment || detE F fuel px py a b } := by
   unfold detE incE
-  rw [countSegment_eq F hF fuel hdet, countSegment_eq F hF fuel hdet]
+  rw [countSegment_eq F hF fuel _ _ _ _ _ _ _ hdet, countSegment_eq F hF fuel _ _ _ _ _ _ _ hdet]
   obtain ⟨cc, co⟩ := c
   split_ifs <;> simp
 
-include hF hdet in
+include hF in
 /-- E1: a boundary hit is real. -/
-theorem detE_sound (px py : K) (a b : K × K) (h : detE F fuel px py a b = true) :
+theorem detE_sound (px py : K) (a b : K × K) (hdet : DetOK F fuel px py a b)
+    (h : detE F fuel px py a b = true) :
     onSegK a b (px, py) := by
   unfold detE at h
-  rw [countSegment_eq F hF fuel hdet] at h
+  rw [countSegment_eq F hF fuel _ _ _ _ _ _ _ hdet] at h
   unfold onSegK crossK
   simp only
   by_cases h1 : b.1 < px ∧ a.1 < px
@@ -204,13 +211,14 @@ theorem detE_sound (px py : K) (a b : K × K) (h : detE F fuel px py a b = true)
       split_ifs at h
   · rw [if_neg h4] at h; cases h
 
-include hF hdet in
+include hF in
 /-- E2: the only boundary position an edge does not report itself is its second end point `b`
 (reported by the next edge, for which it is the first end point). -/
-theorem detE_complete (px py : K) (a b : K × K) (h : detE F fuel px py a b = false)
+theorem detE_complete (px py : K) (a b : K × K) (hdet : DetOK F fuel px py a b)
+    (h : detE F fuel px py a b = false)
     (hon : onSegK a b (px, py)) : px = b.1 ∧ py = b.2 := by
   unfold detE at h
-  rw [countSegment_eq F hF fuel hdet] at h
+  rw [countSegment_eq F hF fuel _ _ _ _ _ _ _ hdet] at h
   obtain ⟨hc, hx1, hx2, hy1, hy2⟩ := hon
   unfold crossK at hc
   simp only at hc hx1 hx2 hy1 hy2
@@ -267,15 +275,16 @@ theorem detE_complete (px py : K) (a b : K × K) (h : detE F fuel px py a b = fa
       · exfalso; rw [eb] at h0; linarith
       · exact ⟨by linarith, eb.symm⟩
 
-include hF hdet in
+include hF in
 /-- E3: on an edge the point is not on, the crossing count goes up exactly when the edge crosses
 the ray to the right of the point. -/
-theorem incE_spec (px py : K) (a b : K × K) (h : detE F fuel px py a b = false) :
+theorem incE_spec (px py : K) (a b : K × K) (hdet : DetOK F fuel px py a b)
+    (h : detE F fuel px py a b = false) :
     (incE F fuel px py a b = 1 ∧ crossesRayK (px, py) a b) ∨
     (incE F fuel px py a b = 0 ∧ ¬ crossesRayK (px, py) a b) := by
   unfold detE at h
   unfold incE
-  rw [countSegment_eq F hF fuel hdet] at h ⊢
+  rw [countSegment_eq F hF fuel _ _ _ _ _ _ _ hdet] at h ⊢
   unfold crossesRayK
   simp only
   -- the abscissa where the carrier line meets the ray's line lies between the end points'
@@ -358,30 +367,34 @@ def edgesK : List (K × K) → List ((K × K) × (K × K))
   | a :: b :: rest => (a, b) :: edgesK (b :: rest)
   | _ => []
 
-include hF hdet in
+include hF in
 /-- The loop over the ring: boundary as soon as some edge reports the point, otherwise the parity
 of the accumulated crossings. -/
-theorem locateLoop_eq (px py : K) : ∀ (ring : List (K × K)) (c : Counter), c.onSegment = false →
+theorem locateLoop_eq (px py : K) : ∀ (ring : List (K × K)),
+    (∀ e ∈ edgesK ring, DetOK F fuel px py e.1 e.2) → ∀ (c : Counter), c.onSegment = false →
     locateLoop F fuel px py c ring =
       if (edgesK ring).any (fun e => detE F fuel px py e.1 e.2) then Loc.boundary
       else if (c.crossings + ((edgesK ring).map fun e => incE F fuel px py e.1 e.2).sum) % 2 = 1
         then Loc.interior else Loc.exterior := by
   intro ring
   induction ring with
-  | nil => intro c hc; simp [locateLoop, edgesK, Counter.location, hc]
+  | nil => intro _ c hc; simp [locateLoop, edgesK, Counter.location, hc]
   | cons a rest ih =>
-    intro c hc
+    intro hdet c hc
     cases rest with
     | nil => simp [locateLoop, edgesK, Counter.location, hc]
     | cons b rest' =>
+      have hab : DetOK F fuel px py a b := hdet (a, b) (by simp [edgesK])
+      have hrest : ∀ e ∈ edgesK (b :: rest'), DetOK F fuel px py e.1 e.2 :=
+        fun e he => hdet e (by simp only [edgesK, List.mem_cons]; exact Or.inr he)
       simp only [locateLoop, edgesK, List.any_cons, List.map_cons, List.sum_cons]
-      rw [countSegment_additive F hF fuel hdet px py c a b]
+      rw [countSegment_additive F hF fuel px py c a b hab]
       simp only [hc, Bool.false_or]
       by_cases hd : detE F fuel px py a b = true
       · simp [hd, Counter.location]
       · have hd' : detE F fuel px py a b = false := by simpa using hd
         simp only [hd', Bool.false_eq_true, if_false, Bool.false_or]
-        rw [ih _ rfl]
+        rw [ih hrest _ rfl]
         simp only [Nat.add_assoc]
 
 /-- The even-odd rule (the specification). -/
@@ -429,9 +442,10 @@ theorem closed_next (ring : List (K × K)) (hcl : ring.head? = ring.getLast?) :
         rw [h] at hcl
         exact Option.some.inj hcl
 
-include hF hdet in
+include hF in
 open Classical in
 theorem sum_inc_eq_count (px py : K) (es : List ((K × K) × (K × K)))
+    (hdet : ∀ e ∈ es, DetOK F fuel px py e.1 e.2)
     (hall : ∀ e ∈ es, detE F fuel px py e.1 e.2 = false) :
     (es.map fun e => incE F fuel px py e.1 e.2).sum
       = (es.filter fun e => decide (crossesRayK (px, py) e.1 e.2)).length := by
@@ -439,37 +453,38 @@ theorem sum_inc_eq_count (px py : K) (es : List ((K × K) × (K × K)))
   | nil => rfl
   | cons e es ih =>
     have he := hall e (by simp)
-    have ih' := ih (fun e' he' => hall e' (by simp [he']))
+    have ih' := ih (fun e' he' => hdet e' (by simp [he'])) (fun e' he' => hall e' (by simp [he']))
     simp only [List.map_cons, List.sum_cons, List.filter_cons]
-    rcases incE_spec F hF fuel hdet px py e.1 e.2 he with ⟨h1, hc⟩ | ⟨h0, hc⟩
+    rcases incE_spec F hF fuel px py e.1 e.2 (hdet e (by simp)) he with ⟨h1, hc⟩ | ⟨h0, hc⟩
     · simp only [h1, hc, decide_true, if_true, List.length_cons, ih']; omega
     · simp only [h0, hc, decide_false, Bool.false_eq_true, if_false, ih']; omega
 
-include hF hdet in
+include hF in
 /-- **C11 — LocatePointInRing is the even-odd rule**, for every closed ring and every point. -/
-theorem C11_locate_eq_spec (p : K × K) (ring : List (K × K)) (hcl : ring.head? = ring.getLast?) :
+theorem C11_locate_eq_spec (p : K × K) (ring : List (K × K)) (hcl : ring.head? = ring.getLast?)
+    (hdet : ∀ e ∈ edgesK ring, DetOK F fuel p.1 p.2 e.1 e.2) :
     (locate F fuel p.1 p.2 ring = Loc.boundary ↔ OnBoundary p ring) ∧
     (¬ OnBoundary p ring →
       (locate F fuel p.1 p.2 ring = Loc.interior ↔ crossingCount p ring % 2 = 1) ∧
       (locate F fuel p.1 p.2 ring = Loc.exterior ↔ crossingCount p ring % 2 ≠ 1)) := by
   obtain ⟨px, py⟩ := p
-  have hloop := locateLoop_eq F hF fuel hdet px py ring {} rfl
+  have hloop := locateLoop_eq F hF fuel px py ring hdet {} rfl
   simp only [locate] at hloop ⊢
   -- some edge reports the point iff the point is on some edge
   have hany : ((edgesK ring).any fun e => detE F fuel px py e.1 e.2) = true ↔ OnBoundary (px, py) ring := by
     rw [List.any_eq_true]
     constructor
-    · rintro ⟨e, he, hd⟩; exact ⟨e, he, detE_sound F hF fuel hdet px py e.1 e.2 hd⟩
+    · rintro ⟨e, he, hd⟩; exact ⟨e, he, detE_sound F hF fuel px py e.1 e.2 (hdet e he) hd⟩
     · rintro ⟨e, he, hon⟩
       by_cases hd : detE F fuel px py e.1 e.2 = true
       · exact ⟨e, he, hd⟩
       · have hd' : detE F fuel px py e.1 e.2 = false := by simpa using hd
-        obtain ⟨e1, e2⟩ := detE_complete F hF fuel hdet px py e.1 e.2 hd' hon
+        obtain ⟨e1, e2⟩ := detE_complete F hF fuel px py e.1 e.2 (hdet e he) hd' hon
         obtain ⟨e', he', hstart⟩ := closed_next ring hcl e he
         refine ⟨e', he', ?_⟩
         -- the point is the first end point of e'
         unfold detE
-        rw [countSegment_eq F hF fuel hdet]
+        rw [countSegment_eq F hF fuel _ _ _ _ _ _ _ (hdet e' he')]
         have h1 : ¬ (e'.2.1 < px ∧ e'.1.1 < px) := by
           rintro ⟨_, h⟩; rw [hstart, ← e1] at h; exact lt_irrefl _ h
         rw [if_neg h1, if_pos ⟨by rw [hstart]; exact e1, by rw [hstart]; exact e2⟩]
@@ -495,7 +510,7 @@ theorem C11_locate_eq_spec (p : K × K) (ring : List (K × K)) (hcl : ring.head?
           have : ((edgesK ring).any fun e => detE F fuel px py e.1 e.2) = true :=
             List.any_eq_true.mpr ⟨e, he, hd⟩
           rw [hnone] at this; cases this
-      exact sum_inc_eq_count F hF fuel hdet px py _ hall
+      exact sum_inc_eq_count F hF fuel px py _ hdet hall
     rw [hloop, hnone]
     simp only [Bool.false_eq_true, if_false, hsum, Nat.zero_add]
     show ((if _ then Loc.interior else Loc.exterior) = Loc.interior ↔ _) ∧ _
